@@ -71,6 +71,7 @@ func init() {
 
 		c.Rule("C08a CalcRewards: at commission 100 it returns (total, zero); otherwise the delegators' pool is total.Sub(provider part) of the very value it returns as the provider part; the provider part is total·self/(delegated+self), plus (total·delegated/(delegated+self))·commission/100 exactly when there are delegations and a non-zero commission")
 		nret := 0
+		found100 := false
 		for _, r := range c.AllReturns(cr) {
 			ret := r.Instr.(*ssa.Return)
 			facts := ir.GuardFacts(ret)
@@ -80,6 +81,7 @@ func init() {
 				// no stake at all: nothing to split
 			case ir.HasFact(facts, "(param#4 == const(100))"):
 				nret++
+				found100 = true
 				if ir.Desc(p) == "param#1" && ir.Desc(d) == newCoins {
 					c.OK("C08a/CalcRewards/commission-100=>provider-gets-all", c.P.InstrPos(ret), "")
 				} else {
@@ -120,7 +122,9 @@ func init() {
 				}
 			}
 		}
-		if nret != 2 {
+		if !found100 {
+			c.Fail("C08a/CalcRewards/commission-100=>provider-gets-all", c.P.Pos(cr.Pos()), "no return under commission == 100: at full commission the general formula's two integer divisions can leave a remainder to the delegators, so the provider does not get exactly the whole reward")
+		} else if nret != 2 {
 			c.Undecided("C08a: expected two splitting returns in CalcRewards, found %d", nret)
 		}
 
